@@ -121,6 +121,8 @@ def run_one(ctx, facts, cfgname):
     ctx.rule("R16.4", "every NonZero::new_unchecked(x) in the decoder is in an arm guarded by x != 0 (and i32::try_from(x).is_ok() "
                       "when narrowing to NonZeroI32)")
     ctx.rule("R16.5", "Signal -> SerdeSignal -> Signal is the identity on the seven first-class signals and on Custom(n)")
+    ctx.rule("R16.7", "stable names: the derived Serialize impls of the tag-kind / disposition / simple-kind / signal-name enums emit the kebab-case "
+                      "(or documented SIG*) name of each variant, and SerdeTag / SerdeEvent serialise their fields under the field names")
     ctx.rule("R16.6", "event metadata is serialised through a BTreeMap (sorted keys); Tag and Event (de)serialise through their "
                       "Serde* mirror types via From/Into")
 
@@ -336,6 +338,51 @@ def run_one(ctx, facts, cfgname):
                             fail="Signal::%s -> %s -> %s" % (v["name"], show(e), show(d)))
         except Skip:
             pass
+
+    # ---- R16.7 names emitted by the derived Serialize impls
+    import re as _re
+
+    def kebab(nm):
+        return _re.sub(r"(?<!^)(?=[A-Z])", "-", nm).lower()
+    name_tables = [("watchexec_events::serde_formats::TagKind", kebab), ("watchexec_events::serde_formats::ProcessDisposition", kebab),
+                   ("watchexec_events::serde_formats::FsEventKind", kebab)]
+    if cfgname == "default":
+        signames = {"Hangup": "SIGHUP", "ForceStop": "SIGKILL", "Interrupt": "SIGINT", "Quit": "SIGQUIT", "Terminate": "SIGTERM", "User1": "SIGUSR1", "User2": "SIGUSR2"}
+        name_tables.append(("watchexec_signals::serde_support::NamedSignal", lambda v: signames.get(v)))
+    for ty, namer in name_tables:
+        cands = facts.trait_methods(ty, "::Serialize", "serialize")
+        adt = facts.find_adt(ty)
+        if len(cands) != 1 or adt is None:
+            ctx.violation("R16.7", "floor:anchor:serialize:%s%s" % (ty.split("::")[-1], sfx), "derived Serialize for %s not found" % ty)
+            continue
+        f = cands[0]
+        ctx.saw_fn(f)
+        emitted = {}
+        for _, t in f.calls():
+            if t.callee.is_("serde::ser::Serializer::serialize_unit_variant") and len(t.args) >= 4:
+                idx, nm = t.args[2].const_int(), t.args[3].const_str()
+                emitted[idx] = nm
+        for v in adt["variants"]:
+            want = namer(v["name"])
+            got = emitted.get(v["idx"])
+            ctx.require(got == want, "R16.7", "name:%s::%s%s" % (ty.split("::")[-1], v["name"], sfx),
+                        "%s::%s is serialised as %r" % (ty.split("::")[-1], v["name"], want), f.loc(f.line),
+                        fail="%s::%s is serialised as %r, documented %r: the JSON format changed" % (ty.split("::")[-1], v["name"], got, want))
+    for ty in ("watchexec_events::serde_formats::SerdeTag", "watchexec_events::serde_formats::SerdeEvent"):
+        cands = facts.trait_methods(ty, "::Serialize", "serialize")
+        adt = facts.find_adt(ty)
+        if len(cands) != 1 or adt is None:
+            ctx.violation("R16.7", "floor:anchor:serialize:%s%s" % (ty.split("::")[-1], sfx), "derived Serialize for %s not found" % ty)
+            continue
+        f = cands[0]
+        ctx.saw_fn(f)
+        keys = set()
+        for _, t in f.calls():
+            if t.callee.is_("serde::ser::SerializeStruct::serialize_field") and len(t.args) >= 2 and t.args[1].const_str() is not None:
+                keys.add(t.args[1].const_str())
+        want = {fl["name"] for fl in adt["variants"][0]["fields"]}
+        ctx.require(keys == want, "R16.7", "fields:%s%s" % (ty.split("::")[-1], sfx), "%s is serialised with keys %s" % (ty.split("::")[-1], sorted(want)), f.loc(f.line),
+                    detail=str(sorted(keys)), fail="%s is serialised with keys %s, expected the field names %s" % (ty.split("::")[-1], sorted(keys), sorted(want)))
 
     # ---- R16.6 containers and mirror types
     se = facts.find_adt("watchexec_events::serde_formats::SerdeEvent")
